@@ -4,7 +4,7 @@
    decoder model, with the bitwise CRC-16/ARC of Spec/CrcSpec.v. *)
 From Coq Require Import NArith ZArith List Bool String.
 From FitV Require Import Model.Values Model.Bytes Model.Header Model.Route Model.Encode
-  Spec.CrcSpec Spec.Grammar Spec.RoundTrip Proofs.EncodeProofs Proofs.EncExamples.
+  Spec.CrcSpec Spec.Grammar Spec.RoundTrip Proofs.EncodeProofs Proofs.C05Grammar Proofs.EncExamples.
 Import ListNotations.
 Local Open Scope N_scope.
 
@@ -26,6 +26,23 @@ Theorem C05_encode_framing : forall f be bs f',
   (hdrsize bs = 14 -> h_crc (f_header f') = hdrcrc bs /\ hdrcrc bs = arc (firstn 12 bs)).
 Proof. exact encode_framing. Qed.
 Print Assumptions C05_encode_framing.
+
+(* records, for every well-formed File (all 17 file types, any contents of any slot), both byte orders,
+   both header sizes: the complete recogniser accepts the bytes -- every data record is preceded by a
+   definition of its local type whose field sizes add up to the record length, every size a multiple of
+   its base-type size -- and returns one record per message of the File, in the documented order, that
+   carries the message number, the byte order and, per field of the definition, the field number, the
+   base type and exactly the bytes writeField wrote for the struct field (rec_of) *)
+Theorem C05_encode_grammar : forall f be bs f',
+  wf_file f = true -> wf_header (f_header f) = true ->
+  encode f be = EOk (bs, f') -> N.of_nat (List.length bs) < 4294967296 ->
+  exists recs, grammar bs = Some recs /\ Forall2 (rec_of be) (file_msgs f) recs.
+Proof. exact encode_grammar. Qed.
+Print Assumptions C05_encode_grammar.
+
+(* the profile facts the proof rests on are one computation over the generated tables *)
+Theorem C05_profile_msgs_ok : forallb msg_ok Gen.ProfileData.messages = true.
+Proof. exact profile_msgs_ok. Qed.
 
 (* non-vacuity: a well-formed activity File with two records encodes, and the
    complete recogniser (records and wire values included) accepts the bytes *)
